@@ -48,10 +48,11 @@ M_summary(p) ==
 \* the typed withdrawal events of the message, in order: pool name, amount, denomination
 EventsMatch(me, re) == /\ Len(me) = Len(re)
                        /\ \A k \in DOMAIN me : me[k].pool = re[k].pool /\ me[k].amount = re[k].amount /\ re[k].denom = vdenom
-Matches(p) == M_modBal(p) /\ M_bal(p) /\ M_locked(p) /\ M_acct(p) /\ M_pools(p) /\ M_traces(p) /\ M_summary(p)
+M_vdenom(p) == vdenom' = p.vdenom
+Matches(p) == M_vdenom(p) /\ M_modBal(p) /\ M_bal(p) /\ M_locked(p) /\ M_acct(p) /\ M_pools(p) /\ M_traces(p) /\ M_summary(p)
 \* diagnosis of a rejected line (second run with DiagLine set to it): which components of the logged event the specification does not reproduce
 CONSTANT DiagLine
-Diag(p, okSame) == PrintT(ToJson([diag |-> [ok |-> okSame, events |-> (IF TraceLog[l].ev = "msg" /\ TraceLog[l].ok /\ act'.ok /\ TraceLog[l].m \in {"withdraw", "send"} THEN EventsMatch(act'.out.events, TraceLog[l].events) ELSE TRUE), modBal |-> M_modBal(p), bal |-> M_bal(p), locked |-> M_locked(p), acct |-> M_acct(p),
+Diag(p, okSame) == PrintT(ToJson([diag |-> [ok |-> okSame, vdenom |-> M_vdenom(p), events |-> (IF TraceLog[l].ev = "msg" /\ TraceLog[l].ok /\ act'.ok /\ TraceLog[l].m \in {"withdraw", "send"} THEN EventsMatch(act'.out.events, TraceLog[l].events) ELSE TRUE), modBal |-> M_modBal(p), bal |-> M_bal(p), locked |-> M_locked(p), acct |-> M_acct(p),
                                              pools |-> M_pools(p), traces |-> M_traces(p), summary |-> M_summary(p)]]))
 
 TrReset ==
@@ -66,6 +67,13 @@ TrConfigure == IsEv("configure") /\ Configure(SetupById(TraceLog[l].setup)) /\ l
 TrAdvance == IsEv("advance") /\ Advance(TraceLog[l].d) /\ l' = l + 1
 
 TrDelegate == IsEv("delegate") /\ Delegate(TraceLog[l].a, Lit(TraceLog[l].amt)) /\ (IF l = DiagLine THEN Diag(TraceLog[l].post, TRUE) ELSE Matches(TraceLog[l].post)) /\ l' = l + 1
+
+TrUpdateDenom ==
+  /\ IsEv("updatedenom")
+  /\ LET e == TraceLog[l] IN
+       /\ UpdateDenom(e.auth, e.d)
+       /\ IF l = DiagLine THEN Diag(e.post, act'.ok = e.ok) ELSE (act'.ok = e.ok /\ Matches(e.post))
+  /\ l' = l + 1
 
 TrMsg ==
   /\ IsEv("msg")
@@ -86,7 +94,7 @@ TrMsg ==
                /\ (e.m \in {"withdraw", "send"} /\ e.ok) => EventsMatch(act'.out.events, e.events)
   /\ l' = l + 1
 
-TraceNext == TrReset \/ TrConfigure \/ TrAdvance \/ TrDelegate \/ TrMsg
+TraceNext == TrReset \/ TrConfigure \/ TrAdvance \/ TrDelegate \/ TrUpdateDenom \/ TrMsg
 TraceSpec == TraceInit /\ [][TraceNext]_tvars
 
 Mark == TLCSet(1, IF TLCGet(1) < l THEN l ELSE TLCGet(1))
